@@ -257,7 +257,7 @@ func vhC14StateCanonicalKeys() {
 
 //verif:harness C14.state_canonical_values unwind=160
 //verif:exec github.com/protolambda/ztyp/codec github.com/protolambda/ztyp/view github.com/protolambda/zrnt/eth2/beacon/common bytes
-//verif:param L=52/72
+//verif:param L=52/60
 func vhC14StateCanonicalValues() {
 	switch vsChoose("type", 5) {
 	case 0:
